@@ -74,118 +74,137 @@ def relockPend (s : State) (j m : Nat) : State :=
   | some aj => setPend s j aj (.mutexWait m)
   | none => s
 
-/-- One simcall of actor `i` handled by maestro.  Returns the new state and the split path it stands for. -/
+/-! ### one simcall of actor `i` (record `a`) handled by maestro, per S4U call.
+Each returns the new state and the split path it stands for. -/
+
+/-- Mutex::lock, non-MC branch: `lock_async(issuer)->wait_for(issuer, -1)` in one simcall -/
+def oLock (o : OState) (i : Nat) (a : Actor) (m : Nat) : Option (OState × Path) :=
+  if m < o.s.mutexes.length then
+    match o.w.step (.lock i m) with
+    | .ok (w', outs) =>
+      let s2 := setPend (setM o.s m (absM (w'.mutexes m))) i a (.mutexWait m)
+      some ({ w := w', s := wakeAll s2 outs }, (i, 0) :: pathOf outs)
+    | .error _ => none
+  else none
+
+/-- Mutex::try_lock -/
+def oTrylock (o : OState) (i : Nat) (a : Actor) (m : Nat) : Option (OState × Path) :=
+  if m < o.s.mutexes.length then
+    match o.w.step (.tryLock i m) with
+    | .ok (w', [(_, .flag b)]) =>
+      some ({ w := w', s := finishStep (setM o.s m (absM (w'.mutexes m))) i { a with obs := a.obs ++ [if b then 1 else 0] } },
+            [(i, 0)])
+    | _ => none
+  else none
+
+/-- Mutex::unlock: the hand-off answers the blocked new owner, then the unlocker -/
+def oUnlock (o : OState) (i : Nat) (a : Actor) (m : Nat) : Option (OState × Path) :=
+  if m < o.s.mutexes.length then
+    match o.w.step (.unlock i m) with
+    | .error _ => some ({ o with s := crash o.s i a }, [(i, 0)])      -- xbt_assert(issuer == owner_)
+    | .ok (w', outs) =>
+      let s2 := finishStep (setM o.s m (absM (w'.mutexes m))) i a
+      match outs with
+      | [_] => some ({ w := w', s := s2 }, [(i, 0)])
+      | [(j, _), _] => some ({ w := w', s := wake s2 j }, [(i, 0), (j, 0)])
+      | _ => none
+  else none
+
+/-- Semaphore::acquire, non-MC branch: `acquire_async(issuer)->wait_for(issuer, -1)` in one simcall -/
+def oAcquire (o : OState) (i : Nat) (a : Actor) (k : Nat) : Option (OState × Path) :=
+  if k < o.s.sems.length then
+    match o.w.step (.acquire i k false) with
+    | .ok (w', outs) =>
+      let s2 := setPend (setS o.s k (absS (w'.sems k))) i a (.semWait k)
+      some ({ w := w', s := wakeAll s2 outs }, (i, 0) :: pathOf outs)
+    | .error _ => none
+  else none
+
+/-- Semaphore::release -/
+def oRelease (o : OState) (i : Nat) (a : Actor) (k : Nat) : Option (OState × Path) :=
+  if k < o.s.sems.length then
+    match o.w.step (.release i k) with
+    | .error _ => none
+    | .ok (w', outs) =>
+      let s2 := finishStep (setS o.s k (absS (w'.sems k))) i a
+      match outs with
+      | [_] => some ({ w := w', s := s2 }, [(i, 0)])
+      | [(j, _), _] => some ({ w := w', s := wake s2 j }, [(i, 0), (j, 0)])
+      | _ => none
+  else none
+
+/-- Barrier::wait, non-MC branch: acquire_async + wait_for (+ was_last) in one simcall -/
+def oBarrier (o : OState) (i : Nat) (a : Actor) (b : Nat) : Option (OState × Path) :=
+  match o.s.bars[b]? with
+  | none => none
+  | some ba =>
+    if 1 ≤ ba.expected ∧ ba.expected < 4294967296 then
+      match o.w.step (.barWait i b) with
+      | .ok (w', outs) =>
+        let s2 := setPend (setB o.s b (absB (w'.bars b))) i a (.barWait b)
+        some ({ w := w', s := wakeAll s2 outs }, (i, 0) :: pathOf outs)
+      | .error _ => none
+    else none
+
+/-- ConditionVariable::wait, CONDVAR_NOMC: acquire_async (unlocks the mutex: hand-off) + wait_for in one simcall -/
+def oCvWait (o : OState) (i : Nat) (a : Actor) (c m : Nat) : Option (OState × Path) :=
+  if c < o.s.cvs.length ∧ m < o.s.mutexes.length then
+    match o.w.step (.condWait i c m false) with
+    | .error _ => some ({ o with s := crash o.s i a }, [(i, 0)])
+    | .ok (w', outs) =>
+      let s2 := setPend (setC (setM o.s m (absM (w'.mutexes m))) c (absC (w'.conds c))) i a (.cvWait c m)
+      some ({ w := w', s := wakeAll s2 outs }, (i, 0) :: pathOf outs)
+  else none
+
+/-- ConditionVariable::notify_one: the popped waiter re-locks its mutex inside the notifier's simcall -/
+def oSignal (o : OState) (i : Nat) (a : Actor) (c : Nat) : Option (OState × Path) :=
+  if c < o.s.cvs.length then
+    match o.w.step (.signal i c) with
+    | .error _ => none
+    | .ok (w', outs) =>
+      let s2 := finishStep (setC o.s c (absC (w'.conds c))) i a
+      match (o.w.conds c).queue with
+      | [] => some ({ w := w', s := s2 }, [(i, 0)])
+      | acq :: _ =>
+        let j := acq.issuer
+        let s3 := relockPend (setM s2 acq.mutex (absM (w'.mutexes acq.mutex))) j acq.mutex
+        match outs with
+        | [_] => some ({ w := w', s := s3 }, [(i, 0), (j, 0)])
+        | [(j', _), _] => if j' = j then some ({ w := w', s := wake s3 j }, [(i, 0), (j, 0), (j, 0)]) else none
+        | _ => none
+  else none
+
+/-- ConditionVariable::notify_all: `while (not empty) signal()`; every popped waiter re-locks its mutex -/
+def oBroadcast (o : OState) (i : Nat) (a : Actor) (c : Nat) : Option (OState × Path) :=
+  if c < o.s.cvs.length then
+    match o.w.step (.broadcast i c) with
+    | .error _ => none
+    | .ok (w', outs) =>
+      let s2 := finishStep (setC o.s c (absC (w'.conds c))) i a
+      let popped := (o.w.conds c).queue
+      let s3 := popped.foldl (fun s acq => relockPend (setM s acq.mutex (absM (w'.mutexes acq.mutex))) acq.issuer acq.mutex) s2
+      let answered := outs.filter (fun x => x.1 ≠ i)
+      some ({ w := w', s := wakeAll s3 answered },
+            (i, 0) :: popped.map (fun acq => (acq.issuer, 0)) ++ pathOf answered)
+  else none
+
+/-- One simcall of actor `i` handled by maestro. -/
 def ostep (o : OState) (i : Nat) : Option (OState × Path) :=
-  let s := o.s
-  match s.actors[i]? with
+  match o.s.actors[i]? with
   | none => none
   | some a =>
-    if s.err ≠ 0 ∨ a.pid = 0 then none else
+    if o.s.err ≠ 0 ∨ a.pid = 0 then none else
     match a.pend with
-    | none => none
-    /- Mutex::lock, non-MC branch: lock_async(issuer)->wait_for(issuer, -1) in one simcall -/
-    | some (.mutexAsyncLock m) =>
-      if m < s.mutexes.length then
-        match o.w.step (.lock i m) with
-        | .ok (w', outs) =>
-          let s2 := setPend (setM s m (absM (w'.mutexes m))) i a (.mutexWait m)
-          some ({ w := w', s := wakeAll s2 outs }, (i, 0) :: pathOf outs)
-        | .error _ => none
-      else none
-    /- Mutex::try_lock -/
-    | some (.mutexTrylock m) =>
-      if m < s.mutexes.length then
-        match o.w.step (.tryLock i m) with
-        | .ok (w', [(_, .flag b)]) =>
-          some ({ w := w', s := finishStep (setM s m (absM (w'.mutexes m))) i { a with obs := a.obs ++ [if b then 1 else 0] } },
-                [(i, 0)])
-        | _ => none
-      else none
-    /- Mutex::unlock: the hand-off answers the blocked new owner, then the unlocker -/
-    | some (.mutexUnlock m) =>
-      if m < s.mutexes.length then
-        match o.w.step (.unlock i m) with
-        | .error _ => some ({ o with s := crash s i a }, [(i, 0)])      -- xbt_assert(issuer == owner_)
-        | .ok (w', outs) =>
-          let s2 := finishStep (setM s m (absM (w'.mutexes m))) i a
-          match outs with
-          | [_] => some ({ w := w', s := s2 }, [(i, 0)])
-          | [(j, _), _] => some ({ w := w', s := wake s2 j }, [(i, 0), (j, 0)])
-          | _ => none
-      else none
-    /- Semaphore::acquire, non-MC branch: acquire_async(issuer)->wait_for(issuer, -1) in one simcall -/
-    | some (.semAsyncLock k) =>
-      if k < s.sems.length then
-        match o.w.step (.acquire i k false) with
-        | .ok (w', outs) =>
-          let s2 := setPend (setS s k (absS (w'.sems k))) i a (.semWait k)
-          some ({ w := w', s := wakeAll s2 outs }, (i, 0) :: pathOf outs)
-        | .error _ => none
-      else none
-    /- Semaphore::release -/
-    | some (.semUnlock k) =>
-      if k < s.sems.length then
-        match o.w.step (.release i k) with
-        | .error _ => none
-        | .ok (w', outs) =>
-          let s2 := finishStep (setS s k (absS (w'.sems k))) i a
-          match outs with
-          | [_] => some ({ w := w', s := s2 }, [(i, 0)])
-          | [(j, _), _] => some ({ w := w', s := wake s2 j }, [(i, 0), (j, 0)])
-          | _ => none
-      else none
-    /- Barrier::wait, non-MC branch: acquire_async + wait_for (+ was_last) in one simcall -/
-    | some (.barAsyncLock b) =>
-      match s.bars[b]? with
-      | none => none
-      | some ba =>
-        if 1 ≤ ba.expected ∧ ba.expected < 4294967296 then
-          match o.w.step (.barWait i b) with
-          | .ok (w', outs) =>
-            let s2 := setPend (setB s b (absB (w'.bars b))) i a (.barWait b)
-            some ({ w := w', s := wakeAll s2 outs }, (i, 0) :: pathOf outs)
-          | .error _ => none
-        else none
-    /- ConditionVariable::wait, CONDVAR_NOMC: acquire_async (unlocks the mutex: hand-off) + wait_for in one simcall -/
-    | some (.cvAsyncLock c m) =>
-      if c < s.cvs.length ∧ m < s.mutexes.length then
-        match o.w.step (.condWait i c m false) with
-        | .error _ => some ({ o with s := crash s i a }, [(i, 0)])
-        | .ok (w', outs) =>
-          let s2 := setPend (setC (setM s m (absM (w'.mutexes m))) c (absC (w'.conds c))) i a (.cvWait c m)
-          some ({ w := w', s := wakeAll s2 outs }, (i, 0) :: pathOf outs)
-      else none
-    /- ConditionVariable::notify_one: the popped waiter re-locks its mutex inside the notifier's simcall -/
-    | some (.cvSignal c) =>
-      if c < s.cvs.length then
-        match o.w.step (.signal i c) with
-        | .error _ => none
-        | .ok (w', outs) =>
-          let s2 := finishStep (setC s c (absC (w'.conds c))) i a
-          match (o.w.conds c).queue with
-          | [] => some ({ w := w', s := s2 }, [(i, 0)])
-          | acq :: _ =>
-            let j := acq.issuer
-            let s3 := relockPend (setM s2 acq.mutex (absM (w'.mutexes acq.mutex))) j acq.mutex
-            match outs with
-            | [_] => some ({ w := w', s := s3 }, [(i, 0), (j, 0)])
-            | [(j', _), _] => if j' = j then some ({ w := w', s := wake s3 j }, [(i, 0), (j, 0), (j, 0)]) else none
-            | _ => none
-      else none
-    /- ConditionVariable::notify_all: `while (not empty) signal()`; every popped waiter re-locks its mutex -/
-    | some (.cvBroadcast c) =>
-      if c < s.cvs.length then
-        match o.w.step (.broadcast i c) with
-        | .error _ => none
-        | .ok (w', outs) =>
-          let s2 := finishStep (setC s c (absC (w'.conds c))) i a
-          let popped := (o.w.conds c).queue
-          let s3 := popped.foldl (fun s acq => relockPend (setM s acq.mutex (absM (w'.mutexes acq.mutex))) acq.issuer acq.mutex) s2
-          let answered := outs.filter (fun x => x.1 ≠ i)
-          some ({ w := w', s := wakeAll s3 answered },
-                (i, 0) :: popped.map (fun acq => (acq.issuer, 0)) ++ pathOf answered)
-      else none
-    | some _ => none      -- not a first simcall of a covered S4U call (a blocked actor, or mailbox / actor / random kinds)
+    | some (.mutexAsyncLock m) => oLock o i a m
+    | some (.mutexTrylock m) => oTrylock o i a m
+    | some (.mutexUnlock m) => oUnlock o i a m
+    | some (.semAsyncLock k) => oAcquire o i a k
+    | some (.semUnlock k) => oRelease o i a k
+    | some (.barAsyncLock b) => oBarrier o i a b
+    | some (.cvAsyncLock c m) => oCvWait o i a c m
+    | some (.cvSignal c) => oSignal o i a c
+    | some (.cvBroadcast c) => oBroadcast o i a c
+    | _ => none      -- terminated, blocked (`*_WAIT`), or a kind that is not covered (mailbox / actor / random)
 
 /-- A whole history: the order in which maestro handles the simcalls. -/
 def orun (o : OState) : List Nat → Option (OState × Path)
